@@ -23,7 +23,8 @@ ORACLES = [lambda run, res: co.check_transitions(run, res, want=('C02',))]
 def generate(seed, stratum, tier):
   rng = random.Random(seed)
   kw = {'shape': rng.choice(['chain', 'chain', 'random']), 'p_react': rng.choice([0.2, 0.4, 0.6]),
-        'decline_bias': rng.choice([0.3, 0.5]), 'nsignals': rng.randrange(3, 7)}
+        'decline_bias': rng.choice([0.3, 0.5]), 'nsignals': rng.randrange(3, 7),
+        'p_decline_query': rng.choice([0.0, 0.3, 0.6])}     # guards that look at the chart (is_in, child_state) and then decline
   # is_in/child_state queries between steps must not change what the next event does
   return cc.gen_chart_scenario(rng, spec_kw=kw, ops=('ev', 'is_in', 'child'), weights=(8, 1, 1))
 
